@@ -64,56 +64,6 @@ def DeltaOK (a : Table) (δ : Delta) : Prop :=
   | some pe => δ.key ≠ pe.key ∧ 0 ≤ pe.power + δ.delta ∧ (δ.key ≠ 0 → pe.power + δ.delta ≠ 0)
   | none => 0 < δ.delta ∧ δ.key ≠ 0
 
-theorem stepSpec_ok_iff (o : Option Entry) (δ : Delta) :
-    (∃ r, stepSpec o δ = .ok r) ↔
-      match o with
-      | some pe => δ.key ≠ pe.key ∧ 0 ≤ pe.power + δ.delta ∧ (δ.key ≠ 0 → pe.power + δ.delta ≠ 0)
-      | none => 0 < δ.delta ∧ δ.key ≠ 0 := by
-  cases o with
-  | none =>
-    simp only [stepSpec]
-    by_cases h1 : δ.delta ≤ 0
-    · simp only [h1, if_true]
-      constructor
-      · rintro ⟨r, hr⟩; cases hr
-      · rintro ⟨h, _⟩; omega
-    · by_cases h2 : δ.key = 0
-      · simp only [h1, if_false, h2, beq_self_eq_true, if_true]
-        constructor
-        · rintro ⟨r, hr⟩; cases hr
-        · rintro ⟨_, h⟩; exact absurd rfl h
-      · have h2' : (δ.key == 0) = false := by simpa using h2
-        simp only [h1, if_false, h2', Bool.false_eq_true]
-        exact ⟨fun _ => ⟨by omega, h2⟩, fun _ => ⟨_, rfl⟩⟩
-  | some pe =>
-    simp only [stepSpec]
-    by_cases h1 : δ.key = pe.key
-    · simp only [h1, beq_self_eq_true, if_true]
-      constructor
-      · rintro ⟨r, hr⟩; cases hr
-      · rintro ⟨h, _⟩; exact absurd rfl h
-    · have h1' : (δ.key == pe.key) = false := by simpa using h1
-      simp only [h1', Bool.false_eq_true, if_false]
-      by_cases h2 : pe.power + δ.delta = 0
-      · by_cases h3 : δ.key = 0
-        · simp only [h3, bne_self_eq_false, Bool.false_and, Bool.false_eq_true, if_false, h2,
-            beq_self_eq_true, if_true]
-          refine ⟨fun _ => ⟨by rw [← h3]; exact h1, by omega, fun h => absurd rfl h⟩, fun _ => ⟨_, rfl⟩⟩
-        · have h3' : (δ.key != 0) = true := by simpa using h3
-          simp only [h3', h2, beq_self_eq_true, Bool.and_self, if_true]
-          constructor
-          · rintro ⟨r, hr⟩; cases hr
-          · rintro ⟨_, _, h⟩; exact absurd rfl (h h3)
-      · have h2' : (pe.power + δ.delta == 0) = false := by simpa using h2
-        simp only [h2', Bool.and_false, Bool.false_eq_true, if_false]
-        by_cases h4 : pe.power + δ.delta > 0
-        · simp only [h4, if_true]
-          exact ⟨fun _ => ⟨h1, by omega, fun _ => h2⟩, fun _ => ⟨_, rfl⟩⟩
-        · simp only [h4, if_false]
-          constructor
-          · rintro ⟨r, hr⟩; cases hr
-          · rintro ⟨_, h, _⟩; omega
-
 /-- **Malformed deltas are rejected**: application to a well-formed table succeeds *iff* the delta is
 strictly sorted by participant, contains no empty entry, and every entry is applicable
 (no unchanged key, no new entry without key or with non-positive power, no power driven below
@@ -276,9 +226,6 @@ theorem validate_prefix_eq (net : Nat) (t : Table) (n : Nat) (base : Option Tip)
 
 /-! ### What a valid run looks like -/
 
-theorem u64_succ (n i : Nat) : u64 (u64 (n + i) + 1) = u64 (n + (i + 1)) := by
-  unfold u64; omega
-
 /-- instances are consecutive from the expected one (modulo 2^64, as in the Go `nextInstance++`) -/
 theorem run_consecutive (net : Nat) (s s' : VState) (cs : List Cert) (h : ValidRun net s cs s')
     (hn : s.next < 2 ^ 64) :
@@ -338,6 +285,19 @@ theorem run_chain (net : Nat) (s s' : VState) (cs : List Cert) (h : ValidRun net
     rw [ih]
     simp [advance, List.append_assoc]
 
+/-- Validation is compositional: a sequence is a valid run iff it splits into a valid run to some
+intermediate state and a valid run from there (so validating certificate by certificate, as the
+certificate store and pollers do, agrees with validating the batch). -/
+theorem run_append_iff (net : Nat) (s s₂ : VState) (cs₁ cs₂ : List Cert) :
+    ValidRun net s (cs₁ ++ cs₂) s₂ ↔ ∃ s₁, ValidRun net s cs₁ s₁ ∧ ValidRun net s₁ cs₂ s₂ :=
+  ⟨validRun_split, fun ⟨_, h₁, h₂⟩ => validRun_append h₁ h₂⟩
+
+/-- Several deltas in one call (`ApplyPowerTableDiffs(t, d₁, …, dₙ, d)`, as the certificate store
+does between checkpoints) = the single-delta application to the result of the shorter call. -/
+theorem apply_diffs_compose (t lt : Table) (ds : List Diff) (d : Diff)
+    (h : applyDiffs t ds = .ok lt) : applyDiffs t (ds ++ [d]) = applyDiff lt d :=
+  applyDiffs_snoc d h
+
 /-- **Consensus output is accepted**: a certificate assembled the honest way — a well-formed chain
 from the required base, a strong quorum of members with non-zero scaled power, their aggregate over
 the DECIDE payload, the canonical delta to the next well-formed table and the commitment to that
@@ -359,6 +319,20 @@ theorem honest_cert_accepted (net : Nat) (t nt : Table) (n : Nat) (base : Option
     ValidRun.cons hv (ValidRun.nil _)
   rw [validate_complete net t n base [c] _ hrun]
   simp [advance, start]
+
+/-! ### The executable oracle is the specification -/
+
+/-- `certValidB`, which the driver evaluates on the implementation's observations, decides `CertValid`. -/
+theorem oracle_decides_certValid (net : Nat) (t : Table) (next : Nat) (base : Option Tip) (c : Cert)
+    (nt : Table) : certValidB net t next base c nt = true ↔ CertValid net t next base c nt :=
+  certValidB_iff net t next base c nt
+
+/-- `specPrefix` (the driver's "longest valid prefix") reaches exactly the state the model's loop
+reaches, and counts all certificates iff the model accepts. -/
+theorem oracle_prefix_is_model (net : Nat) (s : VState) (cs : List Cert) :
+    (specPrefix net s cs).1 = (validateLoop net s cs).1 ∧
+    ((specPrefix net s cs).2 = cs.length ↔ (validateLoop net s cs).2 = none) :=
+  ⟨(specPrefix_eq net s cs).1, (specPrefix_eq net s cs).2.1⟩
 
 /-! ### Non-vacuity: a concrete accepted run, a rejection with prefix, a quorum one member short -/
 
